@@ -19,6 +19,7 @@ from .values import (
     JSFunction,
     JSRegExp,
     JSBoundMethod,
+    _JS_WHITESPACE,
     array_index,
     js_pow,
     to_integer,
@@ -907,7 +908,7 @@ class Context:
                 radix = 10
             if radix < 2 or radix > 36:
                 return float("nan")
-            s = s.strip()
+            s = s.strip(_JS_WHITESPACE)
             if not s:
                 return float("nan")
             # Handle leading sign
@@ -941,7 +942,7 @@ class Context:
 
         def parseFloat_fn(*args):
             s = to_string(args[0]) if args else ""
-            s = s.strip()
+            s = s.strip(_JS_WHITESPACE)
             if not s:
                 return float("nan")
             # Find the longest valid float prefix
@@ -1261,7 +1262,7 @@ class Context:
             radix = 10
         if radix < 2 or radix > 36:
             return float("nan")
-        s = s.strip()
+        s = s.strip(_JS_WHITESPACE)
         if not s:
             return float("nan")
         sign = 1
@@ -1293,7 +1294,7 @@ class Context:
     def _global_parsefloat(self, *args):
         """Global parseFloat."""
         s = to_string(args[0]) if args else ""
-        s = s.strip()
+        s = s.strip(_JS_WHITESPACE)
         if not s:
             return float("nan")
 
